@@ -11,6 +11,7 @@
 From PV Require Import Base.Prelude Cmd.CLex Cmd.Parser Cmd.ParserProofs Cmd.Utf7Ok
      Cmd.Grammar Cmd.GrammarProofs Cmd.Commands Cmd.CommandsProofs Cmd.SuffixProofs
      Cmd.JustProofs Cmd.Framing Cmd.FramingProofs.
+From PV Require Import Sync.WorkerPool Sync.WorkerPoolProofs Sync.WorkerPoolCheck.
 
 (* Commands.parse, for every line, every list of continuation data, every
    configuration (max_append_len, recursion budget) and every behaviour of the
@@ -142,6 +143,60 @@ Theorem C06_sieve_parse_total : forall utf8_ok line,
   match sieve_parse utf8_ok line with SOk _ | SBad => True | _ => False end.
 Proof. exact sieve_parse_total. Qed.
 Print Assumptions C06_sieve_parse_total.
+
+(* "Never stops serving other connections" on the threading subsystem (the
+   maildir backend: ThreadPoolExecutor(--concurrency), every backend call of
+   every connection occupies one of N workers from start to return, FIFO work
+   queue; Sync/WorkerPool.v).  [ahead] = the calls submitted before a request
+   and not yet returned, [Some d] = returns d ticks from now, [None] = never
+   (waits for something only its own client supplies).  The request gets a
+   worker after finitely many ticks iff fewer than N of the calls ahead hold
+   their worker for ever. *)
+Theorem C06_pool_started_iff : forall N ahead,
+  (exists t, started_within N t ahead = true) <-> count_inf ahead < N.
+Proof. exact started_iff. Qed.
+Print Assumptions C06_pool_started_iff.
+
+(* quantitative: the wait is at most the finite service time ahead *)
+Theorem C06_pool_wait_le_work : forall N ahead,
+  count_inf ahead < N -> started_within N (work ahead) ahead = true.
+Proof. intros N ahead H. apply started_by_work; [apply le_n|exact H]. Qed.
+Print Assumptions C06_pool_wait_le_work.
+
+(* N calls that never return (N connections idling with a wait that only DONE
+   ends) and nobody else is ever served *)
+Theorem C06_pool_pinned_never : forall N ahead t,
+  N <= count_inf ahead -> started_within N t ahead = false.
+Proof. intros N ahead t H. apply pinned_never. exact H. Qed.
+Print Assumptions C06_pool_pinned_never.
+
+(* every call ahead returns within a period of P+1 ticks -- what the 1 s
+   timeout of the idle poll provides, and what the case checker [chk_pool]
+   tests on every observed call --: served within (calls ahead) * (P+1) ticks,
+   whatever the number of idling connections and workers (>= 1) *)
+Theorem C06_pool_bounded_wait : forall N P ahead,
+  0 < N -> forallb (bounded_by P) ahead = true ->
+  started_within N (length ahead * S P) ahead = true.
+Proof. exact started_when_bounded. Qed.
+Print Assumptions C06_pool_bounded_wait.
+
+(* the start time the checker compares with the observed one is the first
+   tick with a free worker *)
+Theorem C06_pool_start_tick_sound : forall N fuel ahead t,
+  start_tick N fuel 0 ahead = Some t -> t <= fuel /\ started_within N t ahead = true.
+Proof.
+  intros N fuel ahead t H. apply start_tick_some in H as (_ & H2 & H3).
+  rewrite Nat.sub_0_r in *. split; assumption.
+Qed.
+Print Assumptions C06_pool_start_tick_sound.
+
+(* one worker: behind an idle poll with 99 ticks to go the request starts at
+   tick 100; behind a wait without timeout it never does; two workers, one
+   pinned: the queue drains through the other one *)
+Example C06_pool_example :
+  start_tick 1 2000 0 [Some 99] = Some 100 /\ start_tick 1 2000 0 [None] = None /\
+  start_tick 2 2000 0 [None; Some 49; Some 99] = Some 150.
+Proof. repeat split; vm_compute; reflexivity. Qed.
 
 (* the hypotheses are satisfiable: a total oracle and a contract-keeping
    backend exist, and the theorem says something about a real line *)
